@@ -869,9 +869,11 @@ class Gen:
         self.new_fn_names = []
         self.prescan_new_functions()
         body = self.process_file(os.path.join(self.src_root, 'lib.rs'), '')
-        unused = [k for k, c in self.contracts.items() if not c.used]
-        if unused:
-            raise LostAnchor('contract keys without a function in the tree: %s' % ', '.join(sorted(unused)))
+        # a contracted function that no longer exists (renamed, inlined, removed): its contract is dropped and the
+        # properties it was primary for are reported INCONCLUSIVE by the runner; the other properties are still decided
+        self.missing = sorted(k for k, c in self.contracts.items() if not c.used)
+        if len(self.missing) > 12:
+            raise LostAnchor('%d contract keys have no function in the tree (layout changed?): %s ...' % (len(self.missing), ', '.join(self.missing[:5])))
         for n, (mp, _) in enumerate(self.items):
             if n not in self.used_items:
                 raise LostAnchor('@items target module not found: %s' % mp)
@@ -977,6 +979,8 @@ def build_image(repo_src='/repo/src', vf_dir=HERE, canary=False, extra_sidecars=
     maps['external_bodies'] = g.ext_bodies
     maps['lost_anchors'] = g.lost
     maps['forced_external'] = g.forced
+    maps['missing_functions'] = {k: sorted({p for lab, _ in contracts[k].requires + contracts[k].ensures if lab for p in lab['props']})
+                                 for k in getattr(g, 'missing', [])}
     maps['dropped_statics'] = sorted(DROP_STATICS)
     maps['contracts'] = {k: {'src': c.src, 'external_body': c.external_body,
                              'n_requires': len(c.requires), 'n_ensures': len(c.ensures),
